@@ -261,7 +261,12 @@ pub fn run(tier: Tier) -> i32 {
 /// evaluated once, a remembered arm, a cached partial, a leftover buffer) becomes visible.
 fn zoo(report: &Report, k: u32) {
     use liquid::reflection::ParserReflection;
-    let partials: Vec<(String, String)> = vec![("p1".into(), "[p1 {{ x }}{% cycle 'u', 'v' %}]".into()), ("p2".into(), "[p2 {{ x }}{% increment q %}{% ifchanged %}{{ x }}{% endifchanged %}]".into())];
+    let partials: Vec<(String, String)> = vec![("p1".into(), "[p1 {{ x }}{% cycle 'u', 'v' %}]".into()), ("p2".into(), "[p2 {{ x }}{% increment q %}{% ifchanged %}{{ x }}{% endifchanged %}]".into()),
+        // name resolution: `p2` exists in both spellings (render must keep finding the bare one), `p3` only with the
+        // extension (render finds it through its fallback, include does not)
+        ("p2.liquid".into(), "[p2-with-extension {{ x }}]".into()),
+        ("p3.liquid".into(), "[p3 {{ x }}]".into()),
+    ];
     let mut templates: Vec<String> = [
         "{% for i in a limit: n offset: m %}{{ i }}{% else %}E{% endfor %}",
         "{% for i in (m..n) reversed %}{{ i }}{% else %}E{% endfor %}|{% for i in (n..m) limit: n %}{{ i }}{% endfor %}",
@@ -299,7 +304,7 @@ fn zoo(report: &Report, k: u32) {
         o(&[("a", V::Arr(vec![V::Int(1), V::Int(2), V::Int(3)])), ("n", V::Int(1)), ("m", V::Int(2)), ("s", V::s("a,b")), ("s2", V::s(",")), ("t", V::Int(1)), ("nm", V::s("p1")), ("f", V::s("%Y")), ("o", o(&[("k", V::Int(1)), ("a,b", o(&[("1", V::s("deep"))]))])), ("ts", V::s("2020-02-29 12:00:00 +0000"))]),
         o(&[("a", V::Arr(vec![V::s("x"), V::s("y")])), ("n", V::Int(2)), ("m", V::Int(0)), ("s", V::s("x")), ("s2", V::s("x")), ("t", V::Int(2)), ("nm", V::s("p2")), ("f", V::s("%j")), ("o", o(&[("k", V::s("v")), ("x", o(&[("2", V::Int(3))]))])), ("ts", V::DateTime("1999-12-31 23:59:59 -0330".into()))]),
         o(&[("a", V::Arr(vec![])), ("n", V::Int(0)), ("m", V::Int(5)), ("s", V::s("")), ("s2", V::s("")), ("t", V::Nil), ("nm", V::s("missing")), ("f", V::s("%")), ("o", V::Obj(vec![])), ("ts", V::s("nope"))]),
-        o(&[("a", V::Arr(vec![o(&[("x", V::Int(1))]), o(&[("x", V::Int(2))]), o(&[("y", V::Int(3))])])), ("n", V::Int(3)), ("m", V::Int(1)), ("s", V::s("x")), ("s2", V::s("b")), ("t", V::s("x")), ("nm", V::s("p1")), ("f", V::s("%H:%M")), ("o", o(&[("x", o(&[("x", V::Int(1))]))])), ("ts", V::Int(0))]),
+        o(&[("a", V::Arr(vec![o(&[("x", V::Int(1))]), o(&[("x", V::Int(2))]), o(&[("y", V::Int(3))])])), ("n", V::Int(3)), ("m", V::Int(1)), ("s", V::s("x")), ("s2", V::s("b")), ("t", V::s("x")), ("nm", V::s("p3")), ("f", V::s("%H:%M")), ("o", o(&[("x", o(&[("x", V::Int(1))]))])), ("ts", V::Int(0))]),
         o(&[("a", V::s("str")), ("n", V::s("2")), ("m", V::Int(-1)), ("s", V::Int(5)), ("s2", V::Nil), ("t", V::Arr(vec![V::Int(1)])), ("nm", V::Int(7)), ("f", V::Nil), ("o", V::Arr(vec![V::Int(1)])), ("ts", V::Nil)]),
     ];
     let globals: Vec<liquid::Object> = datas.iter().map(|d| d.to_object()).collect();
